@@ -235,6 +235,7 @@ def repeated_runs(_):
     seen_state.append((dict(test.state), test.diagnoses_store.has_diagnosis_result(build.R.a),
                        test.get_measurement('m').outcome.name if test.get_measurement('m') else None))
     test.state['run'] = runs[0]
+    test.test_record.metadata['station_info']['ops'].append(runs[0])    # in-place edit of a nested metadata value
     test.measurements.c = 50      # violates the conditional validator, which applies in run 1 only
     if runs[0] != 2:
       test.measurements.m = runs[0]
@@ -259,7 +260,7 @@ def repeated_runs(_):
   def pq(test, pp):
     pass
   fp0 = (fingerprint(p), fingerprint(p0))
-  t = htf.Test(p0, p, pq)
+  t = htf.Test(p0, p, pq, station_info={'ops': []})
   fpt0 = fingerprint(t.descriptor.phase_sequence)
   plug_types0 = sorted(x.__name__ for x in t.descriptor.plug_types)
   recs = []
@@ -272,6 +273,9 @@ def repeated_runs(_):
         t.execute(test_start=trigger)      # only the first run is started by a trigger phase with its own plug
       else:
         t.execute()
+      if t.descriptor.metadata['station_info'] != {'ops': []}:
+        bad.append('a run changed the metadata the test was declared with')
+        t.descriptor.metadata['station_info'] = {'ops': []}
       if sorted(x.__name__ for x in t.descriptor.plug_types) != plug_types0:
         bad.append('executing a test changed the set of plug types of its descriptor')
       if (fingerprint(p), fingerprint(p0)) != fp0 or fingerprint(t.descriptor.phase_sequence) != fpt0:
@@ -297,6 +301,9 @@ def repeated_runs(_):
   if ph[2].measurements['m'].measured_value.value != 3 or \
      [tuple(x) for x in ph[2].measurements['d'].measured_value.value] != [(3, 3)]:
     bad.append('the record of a run contains values of an earlier run')
+  if [r.metadata['station_info']['ops'] for r in recs] != [[1], [2], [3]]:
+    bad.append('the metadata of a run\'s record contains what another run wrote (%s)'
+               % [r.metadata['station_info']['ops'] for r in recs])
   if [len(r.diagnoses) for r in recs] != [1, 0, 0]:
     bad.append('diagnoses of one run appear in another run\'s record')
   return bad
